@@ -114,6 +114,83 @@ def run(ctx):
             ctx.fail(f"exception-{type(e).__name__}", f"raised {type(e).__name__}: {e}", desc)
     ctx.streams["lossy processors"] = len(cases)
 
+    # ---- reused processors: the loss values are parameters changed in place between queries
+    nre = ctx.n(60, 600)
+    re_cases = []
+    for i in range(nre):
+        r = rng.fork(("reuse", i))
+        m = r.rint(1, 3)
+        nlc = r.rint(1, 2)
+        ncomp = r.rint(0, 3)
+        slots = r.shuffle(["U"] * ncomp + ["L"] * nlc)
+        comps = []
+        for sl in slots:
+            if sl == "U":
+                lf = gen.rand_leaf(r, m)
+                comps.append(("U", r.rint(0, m - lf.k), lf))
+            else:
+                comps.append(("L", r.rint(0, m - 1), None))
+        nq = r.rint(2, 3)
+        rounds = [[rand_loss(r) for _ in range(nlc)] for _ in range(nq)]
+        s = gen.rand_state(r, m, r.rint(1, 2))
+        re_cases.append((m, comps, rounds, s))
+    reqs, where = [], []
+    for ci, (m, comps, rounds, s) in enumerate(re_cases):
+        for qi, vals in enumerate(rounds):
+            it = iter(vals)
+            enc = []
+            for k, off, lf in comps:
+                if k == "U":
+                    enc.append([0, off, lf.k, lf.U])
+                else:
+                    cs = next(it)
+                    enc.append([1, off, QI(cs[0]), QI(cs[1])])
+            reqs.append((70, [m, enc, s]))
+            where.append((ci, qi))
+    outs_re = ctx.model.run(reqs)
+    expected = {}
+    for (ci, qi), out in zip(where, outs_re):
+        expected[(ci, qi)] = {tuple(e[0]): float(un_q(e[1])) for e in out[1]}
+    for ci, (m, comps, rounds, s) in enumerate(re_cases):
+        desc = {"m": m, "input": s, "loss values per query": [[float(cs[1] ** 2) for cs in vals] for vals in rounds],
+                "components": [f"add({off}, {lf.describe()})" if k == "U" else f"add({off}, LC(P))" for k, off, lf in comps]}
+        changed = any(rounds[q] != rounds[q + 1] for q in range(len(rounds) - 1))
+        ctx.case(["reuse", str(desc)], changed, desc)
+        ctx.count("reuse")
+        try:
+            p = pcvl.Processor("SLOS", m)
+            params = []
+            for k, off, lf in comps:
+                if k == "U":
+                    p.add(off, lf.build())
+                else:
+                    prm = pcvl.P(f"loss{len(params)}")
+                    params.append(prm)
+                    p.add(off, LC(prm))
+            p.min_detected_photons_filter(0)
+            p.with_input(pcvl.BasicState(s))
+            ls = LossSimulator(Simulator(pcvl.SLOSBackend()))
+            for qi, vals in enumerate(rounds):
+                for prm, cs in zip(params, vals):
+                    prm.set_value(float(cs[1] ** 2))
+                got = {tuple(k): float(v) for k, v in p.probs(precision=0)["results"].items()}
+                if not same(expected[(ci, qi)], got):
+                    ctx.fail("loss-reused-processor", "a processor queried again after its loss values were changed in place "
+                             f"does not follow the current values (query {qi + 1})", desc,
+                             str(sorted(expected[(ci, qi)].items())), str(sorted(got.items())))
+                    break
+                ls.set_min_detected_photons_filter(0)
+                ls.set_circuit(p.components, m)
+                got2 = {tuple(k): float(v) for k, v in ls.probs(pcvl.BasicState(s)).items()}
+                if not same(expected[(ci, qi)], got2):
+                    ctx.fail("loss-reused-simulator", "a LossSimulator given the same components again after their loss values "
+                             f"were changed in place does not follow the current values (query {qi + 1})", desc,
+                             str(sorted(expected[(ci, qi)].items())), str(sorted(got2.items())))
+                    break
+        except Exception as e:
+            ctx.fail(f"exception-reuse-{type(e).__name__}", f"raised {type(e).__name__}: {e}", desc)
+    ctx.streams["reused processors (loss parameters changed in place)"] = len(re_cases)
+
     # ---- leading losses == independent thinning of the input (model vs model, and implementation)
     thin_cases = [(m, comps, s) for m, comps, s in cases
                   if all(c[0] == "L" for c in comps[:sum(1 for c in comps if c[0] == "L")])]
